@@ -148,6 +148,16 @@ pub fn shrink_session(start: &Session, fails: &mut dyn FnMut(&Session) -> bool, 
                 }
             }
         }
+        // 3b. drop warm-up deliveries
+        for ri in 0..cur.replicas.len() {
+            let mut wi = cur.replicas[ri].warmup.len();
+            while wi > 0 {
+                wi -= 1;
+                let mut c = cur.clone();
+                c.replicas[ri].warmup.remove(wi);
+                progress |= try_accept(&mut cur, c, fails, &mut b);
+            }
+        }
         // 4. drop rewritten twins, keep one render option
         for i in 0..cur.alts.len() {
             if cur.alts[i].is_some() {
